@@ -28,6 +28,8 @@ verus! {
 //@ include prelude/scalar_hash.rs
 //@ include prelude/hashmap_fill.rs
 //@ include prelude/ordering_cmp.rs
+//@ include prelude/opt_slice.rs
+//@ include prelude/hashmap_of.rs
 //@ include units/C11/error_from.rs
 //@ mode contracts-only C15
 //@ include units/C15/error_from_string.rs
@@ -54,6 +56,7 @@ use vstd::std_specs::iter::IteratorSpec;
 //@ include units/C15/il_core.rs
 //@ mode contracts-only C18
 //@ include units/C18/loc_core.rs
+//@ include units/C18/loc_proofs.rs
 //@ mode contracts-only C04
 //@ include units/C04/builders.rs
 //@ mode full
@@ -79,20 +82,48 @@ use super::il::*;
 //@ mode full
 } // mod executor
 
+// the trait contract + the abstract data-flow theory of unit C09 (no axioms, no broadcast use)
+pub mod fixed_point {
+use super::*;
+use super::il::*;
+use std::collections::HashMap;
+use std::fmt::Debug;
+//@ mode contracts-only C09
+//@ include units/C09/fp_trait.rs
+//@ include units/C09/fp_theory.rs
+//@ mode full
+proof fn vf_canary_fixed_point() ensures false {}
+} // mod fixed_point
+
+// the forward solver (contract imported from unit C09)
+pub mod fixed_point_engine {
+use super::*;
+use super::il::*;
+use super::fixed_point::*;
+use std::collections::HashMap;
+use std::fmt::Debug;
+//@ mode contracts-only C09
+//@ include units/C09/fp_engine.rs
+//@ mode full
+proof fn vf_canary_fixed_point_engine() ensures false {}
+} // mod fixed_point_engine
+
 // the analysis itself (keys hash maps on il::Scalar: the key-model axiom is in scope here only)
 pub mod constants {
 use super::*;
 use super::il;
-use super::il::{Scalar, Expression, Env, EvalR, eval_spec, expr_sane, expr_wf, expr_bits, expr_scalars, occurs};
-use super::graph;
+use super::il::{Scalar, Expression, Env, EvalR, Loc, eval_spec, expr_sane, expr_wf, expr_bits, expr_scalars, occurs};
 use super::il_subst::{replace_spec, repl_g, map_spec, map_result, env_upd, lemma_subst_eval};
+use super::graph;
 use super::executor::eval;
+use super::fixed_point;
 use std::collections::HashMap;
 use std::cmp::PartialOrd;
 use vstd::std_specs::iter::IteratorSpec;
 broadcast use {scalar_hash::axiom_scalar_obeys_key_model, vstd::std_specs::hash::axiom_random_state_builds_valid_hashers};
 //@ include units/C13/constants_spec.rs
 //@ include units/C13/constants_core.rs
+//@ include units/C13/constants_analysis.rs
 proof fn vf_canary_constants() ensures false {}
 } // mod constants
 
